@@ -48,9 +48,15 @@ def main(tier):
         c.finish(rule="build failed")
     rng = c.rng
     cases = [(attr_heavy(rng) if rng.random() < 0.6 else docgen.gen_doc(rng), det_opts(rng)) for _ in range(n)]
+    # the experimental CommonMark minimiser keeps per-call state of its own: short documents with removable escapes
+    # (it re-parses the document once per backslash, so they are kept short)
+    for d in ["\\_\\_hi\n", "a \\* b \\_ c\n", "1\\. x\n", "\\# h\n", "plain\n", "- \\- a\n\n> \\> b\n", "x \\[y\\] z\n", "```\ncode\n```\n\n\\~ t\n"]:
+        for extra in ({}, {"sourcepos": True}, {"width": 20}, {"strikethrough": True, "table": True}):
+            cases.append((d, dict(extra, experimental_minimize_commonmark=True)))
     lines = []
     for d, o in cases:
-        syn = " syn" if rng.random() < 0.5 else ""
+        r = rng.random()
+        syn = " syn" if r < 0.4 else " css" if r < 0.7 else ""
         lines.append(f"det {docgen.opts_token(o)} {hx(d)}{syn}")
     # three separate processes (fresh hash seeds, fresh address space) per shard
     runs = [vlib.run_lines(vlib.VH["debug"], lines, timeout=900) for _ in range(3)]
@@ -72,7 +78,7 @@ def main(tier):
                 ndiff += 1
                 c.violation("outputs differ between separate processes", {"doc": hx(d), "opts": docgen.opts_token(o), "line": l, "run0": a, f"run{k}": runs[k][i]})
                 break
-    c.cov["spec_checks"]["det: 3 renderings of one tree + 8 threads x 2 sharing Options/Plugins (half with SyntectAdapter) x 3 processes, html+xml+cm"] = len(cases)
+    c.cov["spec_checks"]["det: 3 renderings of one tree + the same input again after five other documents + 8 fresh threads x 2 sharing Options/Plugins (40% themed SyntectAdapter, 30% CSS-class SyntectAdapter) x 3 processes, html+xml+cm"] = len(cases)
     c.cov["samples"].append({"line": lines[0][:300], "fingerprint": runs[0][0]})
     c.cov["partial_clauses"] = ["thread interleavings and process runs are observed, not proved; data races inside third-party plugins cannot be exhibited by the model",
                                 "Send + Sync bounds of callbacks and adapters are compile-time facts of the crate"]
